@@ -11,7 +11,7 @@ Matrix: code generator {cannon, boots} x collector {copy, sweep, swiper} x DORA_
 (DORA_VERIF_PERTURB=<seed>:<permille>, one level per repetition); a seeded covering sample per case. DORA_VERIF_DEADLOCK=5000 is
 always set: the all-blocked detector's exit 94 is a definite lost wake-up / deadlock verdict, a plain watchdog timeout is
 inconclusive. Oracle: stdout == expected text, exit 0, no trap (a failed `assert` of the program = trap 102), no signal, no runtime
-panic, no monitor exit. Keys: c09:prog:<scenario>:<outcome class>:<backend>:<gc>.
+panic, no monitor exit. Keys: c09:prog:<scenario>:<outcome class>[:<backend> for traps, wrong output and exit statuses].
 """
 import json
 import os
@@ -91,7 +91,10 @@ def run(ctx):
     perturb = ctx.pick([0, 60, 400], [0, 30, 100, 300, 700])
     want = opts.get("scenario")     # --opt scenario=<name>: exploration of one family (no coverage requirements)
     cpus = sorted(os.sched_getaffinity(0))
-    combos = [(be, gc, fl, af) for be in progrun.BACKENDS for gc in GCS for fl in FLAGS for af in AFFINITY]
+    # (swiper, --gc-stress, one core) is left out: a full swiper collection takes > 10 s on one shared, loaded core (measured 17 s
+    # for a 16M heap with 464 live bytes, 0.4 s on all cores), so those runs only produce watchdog timeouts = inconclusive
+    combos = [(be, gc, fl, af) for be in progrun.BACKENDS for gc in GCS for fl in FLAGS for af in AFFINITY
+              if not (gc == "swiper" and fl == "stress" and af == "one")]
     jobs = []
     inst = 0
     for si, name in enumerate(threadgen.SCEN_ID):
@@ -164,7 +167,6 @@ def run(ctx):
             ctx.count("prog_skipped_time_budget")
             continue
         c = j["case"]
-        scen = c.scenario() if not (len(c.invocations) > 1) else j["scenario"] + "+mix"
         cfg = "%s --gc %s DORA_FLAGS='%s' affinity=%s perturb=%s" % (j["be"], j["gc"], FLAGS[j["fl"]][0], sorted(j["aff"]) if j["aff"] else "all", j["perturb"])
         ctx.count("prog_runs")
         if o.cls == "timeout":
@@ -197,7 +199,14 @@ def run(ctx):
                      c.describe(), threadgen.Knobs.describe(knobs[int(j["prog"][2:])]), FLAGS[j["fl"]][0],
                      " DORA_VERIF_PERTURB=" + j["perturb"] if j["perturb"] else "", "taskset -c %s " % ",".join(map(str, sorted(j["aff"]))) if j["aff"] else "",
                      "--cannon " if j["be"] == "cannon" else "", j["gc"], " ".join(str(a) for a in c.argv()))}
-        suffix = ":%s:%s" % (j["be"], j["gc"])
+        # the scenario a failure belongs to = the invocation that was running or printed the first wrong line (one line each)
+        exp_lines, got_lines = exp.splitlines(True), got.splitlines(True)
+        k = 0
+        while k < len(exp_lines) and k < len(got_lines) and exp_lines[k] == got_lines[k]:
+            k += 1
+        scen = threadgen.SCENARIOS[c.invocations[min(k, len(c.invocations) - 1)][0]]
+        # key space: scenario x outcome class; the code generator is part of the key only where generated code can be the culprit
+        suffix = ":" + j["be"]
         if o.cls == "ok" and o.status == 0 and got == exp:
             ctx.count("prog_runs_ok")
             if ctx.counters["prog_runs_ok"] % 97 == 1:
@@ -205,7 +214,7 @@ def run(ctx):
             continue
         if o.cls == "verif_monitor":
             line = next((l for l in err.splitlines() if "VERIF-MONITOR" in l), "")
-            ctx.violation("c09:prog:%s:monitor-%s%s" % (scen, execu.MONITOR_EXITS.get(o.status, o.status), suffix),
+            ctx.violation("c09:prog:%s:monitor-%s" % (scen, execu.MONITOR_EXITS.get(o.status, o.status)),
                           "%s under %s: %s\n(exit %d is a logical verdict of the runtime monitor, not a timeout)\nstdout so far: %r" % (c.describe(), cfg, line, o.status, got[-300:]),
                           files=files)
         elif o.cls == "trap":
@@ -214,13 +223,17 @@ def run(ctx):
                           "%s under %s ended in trap %s at program line %s: `%s`\nstderr: %s" % (c.describe(), cfg, execu.TRAPS.get(o.status), ln, text, err[-900:]), files=files)
         elif o.cls in ("signal", "rust_panic", "fatal"):
             sig = progrun.crash_signature(err) or ""
-            ctx.violation("c09:prog:%s:%s%s%s" % (scen, o.key(), (":" + sig) if o.cls == "rust_panic" and sig else "", suffix),
+            ctx.violation("c09:prog:%s:%s%s" % (scen, o.key(), (":" + sig) if o.cls == "rust_panic" and sig else ""),
                           "%s under %s ended %s\nstderr: %s" % (c.describe(), cfg, o.key(), err[-1200:]), files=files)
         elif o.cls == "ok" and o.status != 0:
             ctx.violation("c09:prog:%s:exit-%d%s" % (scen, o.status, suffix), "%s under %s exited with status %d\nstderr: %s" % (c.describe(), cfg, o.status, err[-900:]),
                           files=files)
         else:
             ctx.violation("c09:prog:%s:output%s" % (scen, suffix), "%s under %s printed %r, expected %r" % (c.describe(), cfg, got[-400:], exp[-400:]), files=files)
+    if ctx.counters.get("prog_skipped_time_budget"):
+        ctx.inconc("program level: %d of %d planned runs were not started because the time budget of %.0f s was used up (machine load)" % (
+            ctx.counters["prog_skipped_time_budget"], len(jobs), budget))
+    ctx.extra["prog_planned_runs"] = len(jobs)
     for h in HOOKS:
         ctx.counters["prog_hook_" + h] = hook.get(h, 0)
     ctx.counters["prog_hook_WAITLIST_MAX_CHAIN"] = maxchain
